@@ -126,7 +126,13 @@ func (cl *Client) Key(etype etype.EType, kvno int, krberr *messages.KRBError) (t
 			if err != nil {
 				return types.EncryptionKey{}, 0, fmt.Errorf("could not get PAData from KRBError to generate key from password: %v", err)
 			}
-			key, _, err := crypto.GetKeyFromPassword(cl.Credentials.Password(), krberr.CName, krberr.CRealm, etype.GetETypeID(), pas)
+			// The default salt is made of the client's name and realm. The KDC may have put the canonical ones into its
+			// error, but both fields are optional there.
+			cname, crealm := krberr.CName, krberr.CRealm
+			if len(cname.NameString) == 0 || crealm == "" {
+				cname, crealm = cl.Credentials.CName(), cl.Credentials.Domain()
+			}
+			key, _, err := crypto.GetKeyFromPassword(cl.Credentials.Password(), cname, crealm, etype.GetETypeID(), pas)
 			return key, 0, err
 		}
 		key, _, err := crypto.GetKeyFromPassword(cl.Credentials.Password(), cl.Credentials.CName(), cl.Credentials.Domain(), etype.GetETypeID(), types.PADataSequence{})
